@@ -1,5 +1,39 @@
 import importlib
+import os
+import signal
+import subprocess
 import sys
+
+# Signals by which a process dies when compiled code it runs corrupts memory or traps.  The checks drive phonopy's
+# compiled kernels in-process; on the unchanged tree this never happens, so such a death is the implementation
+# leaving the specified behaviour (memory safety, C13's clause, but fatal for whichever check meets it): it is
+# reported as a violation of the property being checked, not as a failure of the machinery.
+CRASH_SIGNALS = {signal.SIGSEGV: "SIGSEGV", signal.SIGABRT: "SIGABRT", signal.SIGBUS: "SIGBUS",
+                 signal.SIGFPE: "SIGFPE", signal.SIGILL: "SIGILL"}
+
+
+def run_child(argv):
+    env = dict(os.environ, VERIF_CHILD="1")
+    p = subprocess.run([sys.executable, "-m", "harness.cli"] + argv, env=env)
+    rc = p.returncode
+    if rc >= 0:
+        return rc
+    name = CRASH_SIGNALS.get(-rc)
+    pid = argv[0].upper()
+    if name is None:
+        print("MACHINERY-FAILURE %s: check process killed by signal %d" % (pid, -rc), file=sys.stderr)
+        return 2
+    from . import core
+    tier = "quick"
+    if "--tier" in argv and argv.index("--tier") + 1 < len(argv):
+        tier = argv[argv.index("--tier") + 1]
+    ctx = core.Ctx(pid, tier, int(os.environ.get("VERIF_SEED", "0") or 0), None)
+    ctx.rule = "the check process died while driving the implementation"
+    ctx.violation("crash:%s" % name,
+                  "the process running phonopy's code under this check was killed by %s (memory corruption or trap in "
+                  "compiled code); no behaviour of the specification ends this way" % name,
+                  dict(signal=name, argv=argv, repo=os.environ.get("VERIF_REPO", "/repo")))
+    return ctx.finish()
 
 
 def main():
@@ -10,6 +44,8 @@ def main():
     if argv[0] == "--setup":
         from . import setup
         return setup.main()
+    if not os.environ.get("VERIF_CHILD"):
+        return run_child(argv)
     pid = argv[0].upper()
     from . import core
     mod = importlib.import_module("harness.props.%s" % pid.lower())
